@@ -2,7 +2,9 @@ import XalanModel.C18.ToDoubleProofs
 import XalanModel.C18.GrammarProofs
 import XalanModel.C18.ToStringProofs
 import XalanModel.C18.RoundTripProofs
-import XalanModel.C18.Round
+import XalanModel.C18.RoundProofs
+import XalanModel.C18.FastPathProofs
+import XalanModel.C18.PrintfRoundTripProofs
 /-!
 # C18 — number/string conversions follow XPath and round-trip
 
@@ -52,7 +54,7 @@ theorem toDouble_invalid_is_nan (threshold : Nat) (s : List Nat) (h0 : ∀ c ∈
       simp only [List.takeWhile_cons, ne_eq, hc, not_false_eq_true, decide_true, if_true]
       rw [ih (fun d hd => h0 d (by simp [hd]))]
   have hv : doValidate s = false := by rw [doValidate_eq_matchesNumber]; exact h
-  unfold toDoubleT
+  unfold toDoubleT toDoubleK
   simp only [hs]
   split
   · rfl
@@ -238,12 +240,24 @@ theorem toDouble_fast_path_partial (threshold : Nat) (w1 : List Nat) (neg : Bool
 example : numeralString [32] true [52, 50] [10] = [32, 45, 52, 50, 10] ∧
     toDoubleT 10 [32, 45, 52, 50, 10] = Dbl.ofInt (-42) := by decide +kernel
 
-/-- the integer fast path loses the sign of zero: `number("-0")` is `+0`, the nearest double to
+/-- fast path before the repair (`keepSign = false`): `number("-0")` is `+0`, the nearest double to
 the numeral `-0` is `-0` (and `number("-0.0")`, which goes through `atof`, is `-0`). -/
 theorem toDouble_negative_zero_counterexample :
-    toDouble [45, 48] = Dbl.zero false ∧ toDoubleSpec [45, 48] = Dbl.zero true ∧
-    toDouble [45, 48, 46, 48] = Dbl.zero true := by
+    toDoubleT 10 [45, 48] = Dbl.zero false ∧ toDoubleSpec [45, 48] = Dbl.zero true ∧
+    toDoubleT 10 [45, 48, 46, 48] = Dbl.zero true := by
   decide +kernel
+
+/-- **Repaired fast path (`keepSign = true`, proposed/C18-negzero-fastpath.diff) = specification**:
+for `ws* '-'? digits+ ws*` shorter than the threshold (≤ 16, so the value is below 10^15 < 2^53)
+`toDouble` is the nearest double to the numeral *including the sign of zero*. -/
+theorem toDouble_fast_path_fixed_spec (threshold : Nat) (hth : threshold ≤ 16) (w1 : List Nat) (neg : Bool)
+    (ds w2 : List Nat) (h1 : ∀ c ∈ w1, isWs c = true) (hds : ∀ c ∈ ds, isDigit c = true) (hne : ds ≠ [])
+    (h2 : ∀ c ∈ w2, isWs c = true) (hlen : (numeralString w1 neg ds w2).length < threshold) :
+    toDoubleK true threshold (numeralString w1 neg ds w2) = toDoubleSpec (numeralString w1 neg ds w2) :=
+  fast_path_fixed_spec threshold hth w1 neg ds w2 h1 hds hne h2 hlen
+
+example : toDoubleK true 10 [45, 48] = Dbl.zero true ∧ toDoubleK true 10 [32, 45, 48, 48, 10] = Dbl.zero true ∧
+    toDoubleK true 10 [45, 52, 50] = Dbl.ofInt (-42) := by decide +kernel
 
 /-! ## round trip -/
 
@@ -273,28 +287,101 @@ example : (Dbl.ofInt (castInt64 true (1234567 * 2 ^ 32) (-32))).ieeeEq (.fin tru
     (castInt64 true (1234567 * 2 ^ 32) (-32)).natAbs < 10 ^ 8 ∧ 8 + 1 < Generated.C18.longHackThreshold := by
   decide +kernel
 
-/-! ## round -/
+/-- **Round trip of the precision-loop path**: for every double that is not printed through the
+int64 path and for which the loop ends with a read-back match (`readsBack cfg … = true`: decidable per
+value; it is `false` exactly for the values left at the last precision without a match), the final
+string `s` — after zero stripping and point repair — is a numeral whose specified value
+`toDoubleSpec s` is IEEE-equal to `x`, and `toDouble s` returns exactly `toDoubleSpec s` whenever `s`
+takes the `atof` path (it contains a decimal point or has at least `threshold` characters).
+Key facts proved: stripping trailing fractional zeros does not change the value `atof` reads
+(`roundRat` depends on the value only).  `_partial`: that the loop does reach a match for a given `x`
+is the hypothesis, not proved from a digits bound (17 significant digits within 35 places); it is
+evaluated per value by the driver/oracle, and is false below about 1e-19. -/
+theorem toString_roundtrip_printf_partial (cfg : NumCfg) (keep : Bool) (threshold : Nat) (neg : Bool) (m : Nat)
+    (e : Int) (hm : m ≠ 0) (hP : ∀ p ∈ cfg.precisions, 1 ≤ p)
+    (hnint : (Dbl.ofInt (castInt64 neg m e)).ieeeEq (.fin neg m e) = false)
+    (hexit : readsBack cfg neg m e = true) :
+    ∃ s, numberToString cfg (.fin neg m e) = .ok s ∧ matchesNumber s = true ∧
+      (toDoubleSpec s).ieeeEq (.fin neg m e) = true ∧
+      (((doValidate2 s).2 = true ∨ threshold ≤ s.length) → toDoubleK keep threshold s = toDoubleSpec s) := by
+  unfold readsBack at hexit
+  cases hl : printLoop cfg.buffer neg m e cfg.precisions with
+  | none => rw [hl] at hexit; cases hexit
+  | some buf =>
+    rw [hl] at hexit
+    exact roundtrip_printf cfg keep threshold neg m e hm hP hnint buf hl hexit
 
-/-- `round(0.49999999999999994)` is 1 (and `round(-0.49999999999999994)` is -1): `x + 0.5` is
+/-- hypotheses satisfiable: x = 0.1 reads back; x = 1e-40 does not (known finding) -/
+example : readsBack genCfg false 0x1999999999999a (-56) = true ∧
+    (Dbl.ofInt (castInt64 false 0x1999999999999a (-56))).ieeeEq (.fin false 0x1999999999999a (-56)) = false ∧
+    readsBack genCfg false 0x116c262777579c (-185) = false := by
+  decide +kernel
+
+/-! ## round / floor / ceiling
+
+`Canonical m e`: the finite values a bit pattern decodes to (`ofBits_canonical`). -/
+
+/-- every 64-bit pattern decodes to NaN, an infinity, or a canonical finite value: the hypotheses
+`Canonical m e` below cover every IEEE double. -/
+theorem all_doubles_canonical (b : Nat) : match Dbl.ofBits b with
+    | .fin _ m e => Canonical m e
+    | _ => True :=
+  ofBits_canonical b
+
+/-- **`floor` is XPath floor for every finite double** (largest integer ≤ x, sign of zero as IEEE) -/
+theorem floor_spec (neg : Bool) (m : Nat) (e : Int) (hc : Canonical m e) :
+    floor (.fin neg m e) = floorSpec (.fin neg m e) :=
+  floor_eq_spec neg m e hc
+
+/-- **`ceiling` is XPath ceiling for every finite double** (smallest integer ≥ x; (-1, 0) ↦ -0) -/
+theorem ceiling_spec (neg : Bool) (m : Nat) (e : Int) (hc : Canonical m e) :
+    ceiling (.fin neg m e) = ceilingSpec (.fin neg m e) :=
+  ceiling_eq_spec neg m e hc
+
+example : Canonical (3 * 2 ^ 51) (-52) ∧ floor (.fin true (3 * 2 ^ 51) (-52)) = Dbl.ofInt (-2) := by
+  refine ⟨Or.inr (by decide), by decide +kernel⟩
+
+/-- **The repaired `round` (variant 1: `modf`, then `ceil`/`floor`/integral part) is XPath round for
+every double**: the integer closest to x, ties toward +∞, NaN/±∞/±0 unchanged, [-0.5, 0) ↦ -0. -/
+theorem round_fixed_spec (x : Dbl) (hx : match x with | .fin _ m e => Canonical m e | _ => True) :
+    roundV1 x = roundSpec x := by
+  cases x with
+  | nan => rfl
+  | inf n => rfl
+  | fin neg m e => exact roundV1_eq_spec neg m e hx
+
+/-- the same for `round` of the current source once the translator recognises the repaired form -/
+theorem round_spec_generated (h : Generated.C18.roundVariant = 1) (x : Dbl)
+    (hx : match x with | .fin _ m e => Canonical m e | _ => True) : round x = roundSpec x := by
+  unfold round; rw [if_pos h]; exact round_fixed_spec x hx
+
+/-- the three deviations of variant 0 are gone in variant 1 -/
+example : roundV1 (Dbl.ofBits 0x3fdfffffffffffff) = Dbl.zero false ∧
+    roundV1 (Dbl.ofBits 0x4330000000000001) = Dbl.ofBits 0x4330000000000001 ∧
+    roundV1 (Dbl.ofBits 0xbfd3333333333333) = Dbl.zero true ∧ roundV1 (Dbl.zero true) = Dbl.zero true := by
+  decide +kernel
+
+/-- variant 0 (`long(x + 0.5)`, the code before proposed/C18-round.diff):
+`round(0.49999999999999994)` is 1 (and `round(-0.49999999999999994)` is -1): `x + 0.5` is
 rounded up to 1.0 before the truncation.  XPath: 0 / -0. -/
 theorem round_spec_counterexample_half_ulp :
-    round (Dbl.ofBits 0x3fdfffffffffffff) = Dbl.ofBits 0x3ff0000000000000 ∧
+    roundV0 (Dbl.ofBits 0x3fdfffffffffffff) = Dbl.ofBits 0x3ff0000000000000 ∧
     roundSpec (Dbl.ofBits 0x3fdfffffffffffff) = Dbl.zero false ∧
-    round (Dbl.ofBits 0xbfdfffffffffffff) = Dbl.ofBits 0xbff0000000000000 ∧
+    roundV0 (Dbl.ofBits 0xbfdfffffffffffff) = Dbl.ofBits 0xbff0000000000000 ∧
     roundSpec (Dbl.ofBits 0xbfdfffffffffffff) = Dbl.zero true := by
   decide +kernel
 
-/-- `round(2^52 + 1)` is `2^52 + 2`: the tie `x + 0.5` goes to the even neighbour. -/
+/-- variant 0: `round(2^52 + 1)` is `2^52 + 2`: the tie `x + 0.5` goes to the even neighbour. -/
 theorem round_spec_counterexample_big_odd :
-    round (Dbl.ofBits 0x4330000000000001) = Dbl.ofBits 0x4330000000000002 ∧
+    roundV0 (Dbl.ofBits 0x4330000000000001) = Dbl.ofBits 0x4330000000000002 ∧
     roundSpec (Dbl.ofBits 0x4330000000000001) = Dbl.ofBits 0x4330000000000001 := by
   decide +kernel
 
-/-- `round(-0.3)` and `round(-0)` are `+0`; XPath prescribes `-0`. -/
+/-- variant 0: `round(-0.3)` and `round(-0)` are `+0`; XPath prescribes `-0`. -/
 theorem round_spec_counterexample_negative_zero :
-    round (Dbl.ofBits 0xbfd3333333333333) = Dbl.zero false ∧
+    roundV0 (Dbl.ofBits 0xbfd3333333333333) = Dbl.zero false ∧
     roundSpec (Dbl.ofBits 0xbfd3333333333333) = Dbl.zero true ∧
-    round (Dbl.zero true) = Dbl.zero false ∧ roundSpec (Dbl.zero true) = Dbl.zero true := by
+    roundV0 (Dbl.zero true) = Dbl.zero false ∧ roundSpec (Dbl.zero true) = Dbl.zero true := by
   decide +kernel
 
 end XalanModel.Props.C18
